@@ -456,7 +456,7 @@ def case_corpus_gen(ctx, idx, path, opts):
     f = "in/" + os.path.basename(path)
     res = {"path": path}
     src = open(path, "rb").read()
-    # memcheck is 20-50x slower: the two largest examples (rrc, MEGACO: > 100 KB) go without it
+    # memcheck is 20-50x slower: the largest example (rrc-7.1.0, 700 KB) goes without it
     res["det"] = det_runs(ctx, d, {f: src}, [f], opts, idx, use_valgrind=len(src) < 100000)
     res["tree"] = per_type(res["det"].pop("tree"))
     shutil.rmtree(d, ignore_errors=True)
